@@ -207,7 +207,10 @@ namespace _fmt_basics {
 			bool plus_becomes_space = false, bool use_capitals = false,
 			locale_options locale_opts = {}, const char *prefix = "") {
 		if(number < 0) {
-			auto absv = ~static_cast<typename std::make_unsigned_t<T>>(number) + 1;
+			// Convert back to the unsigned type: for types narrower than int,
+			// the arithmetic above is done in (signed) int.
+			auto absv = static_cast<typename std::make_unsigned_t<T>>(
+					~static_cast<typename std::make_unsigned_t<T>>(number) + 1);
 			print_digits(sink, absv, true, radix, width, precision, padding,
 					left_justify, group_thousands, always_sign, plus_becomes_space, use_capitals,
 					locale_opts, prefix);
